@@ -273,6 +273,8 @@ class Engine(ExprMixin, CallMixin, StmtMixin):
 
     # ------------------------------------------------------------------ obligations
     def oblige(self, name, st, goal, kind='A', props=(), meta=None):
+        if getattr(self, 'suppress_obligations', 0):
+            return
         if isinstance(goal, bool):
             goal = BoolVal(goal)
         g = simplify(goal)
